@@ -180,6 +180,10 @@ def replay(path):
     impl = Impl()
     bad = 0
     for c in r["cases"]:
+        if c.get("kind") == "e2e":
+            print("e2e case: re-run ./check C11 with the recorded seed; %s" % c["why"][:200])
+            bad += 1
+            continue
         ab, res = impl.check(bytes.fromhex(c["frame"]))
         why = prop_fails(ab, res)
         print("%s frame=%s... -> %s : %s" % (c.get("kind", ""), c["frame"][:60], res, "FAILS: " + why if why else "ok"))
@@ -244,6 +248,56 @@ def main():
                     fails.append({"kind": "occ", "frame": data.hex(), "why": "ones_complement_checksum total 0x%x -> %s" % (total, a)})
                 ck.case(("occ", data))
         m.close()
+    # ---- end to end (the filter equation of C11_filter on the implementation): a capture of a TLS and a QUIC connection with correct
+    # checksums, some packets corrupted; the export with -c must be the export without -c of the capture minus the corrupted packets
+    import collections
+    from lib import tlsgen, pool
+    from lib.implrun import Impl as RunImpl
+    from ref import capgen, readback
+    rimpl = RunImpl()
+    from tlexport import cipher_suite_parser as csp
+    table = tlsgen.suite_table(csp)
+    h2 = collections.Counter()
+    for i in range(6 if ck.tier == "quick" else 80):
+        v6 = bool(i & 1)
+        conns = [pool.quic_conn(ck.rng, h2, idx=1, napp=3, v6=v6), pool.tls_conn(ck.rng, table, h2, idx=2, nrec=3, reclen=40, v6=v6)]
+        case = pool.build(ck.rng, conns, h2)
+        pk = [dict(p_) for p_ in case.packets]
+        cand = [j for j, p_ in enumerate(pk) if readback.parse_frame(p_["frame"]).get("payload")]
+        bad = set()
+        for j in ck.rng.sample(cand, min(len(cand), ck.rng.choice([1, 2, 3]))):
+            f = readback.parse_frame(pk[j]["frame"])
+            l4off = 14 + (40 if f["v6"] else 20)
+            foff = l4off + (16 if f["kind"] == "tcp" else 6)
+            b = bytearray(pk[j]["frame"])
+            how = ck.rng.choice(["flip-payload", "field-random", "field-0000", "field-ffff", "field-plus-0x100"])
+            old_field = struct.unpack(">H", bytes(b[foff:foff + 2]))[0]
+            if how == "flip-payload":
+                b[len(b) - 1 - ck.rng.randrange(min(8, len(f["payload"])))] ^= 1 << ck.rng.randrange(8)
+            elif how == "field-random":
+                b[foff:foff + 2] = struct.pack(">H", ck.rng.randrange(65536))
+            elif how == "field-0000":
+                b[foff:foff + 2] = b"\x00\x00"
+            elif how == "field-ffff":
+                b[foff:foff + 2] = b"\xff\xff"
+            else:
+                b[foff:foff + 2] = struct.pack(">H", old_field ^ 0x0100)
+            g = readback.parse_frame_lenient(bytes(b)) if hasattr(readback, "parse_frame_lenient") else None
+            seg = bytes(b[l4off:])
+            if synth.l4_valid(f["src"], f["dst"], 6 if f["kind"] == "tcp" else 17, seg):
+                continue                                    # the change happened to leave a correct checksum
+            if f["kind"] == "udp" and not f["v6"] and bytes(b[foff:foff + 2]) == b"\x00\x00":
+                continue                                    # UDP over IPv4 with field 0 means "no checksum": outside the quantifier
+            pk[j]["frame"] = bytes(b)
+            bad.add(j)
+            hist["e2e-" + how] = hist.get("e2e-" + how, 0) + 1
+        st1, out1 = rimpl.run(capgen.to_pcapng(pk), case.keylog, ["-c"])
+        st0, out0 = rimpl.run(capgen.to_pcapng([p_ for j, p_ in enumerate(pk) if j not in bad]), case.keylog, [])
+        ck.case(("e2e", i, tuple(sorted(bad))))
+        if (st1, out1) != (st0, out0):
+            fails.append({"kind": "e2e", "frame": capgen.to_pcapng(pk).hex(), "why": "with -c a capture with %d corrupted packet(s) (%s) is exported differently from the capture without them and without -c (%s %s bytes vs %s %s bytes)" % (
+                len(bad), sorted(bad), st1, len(out1 or b""), st0, len(out0 or b""))})
+    rimpl.cleanup()
     ck.cov["traces_validated_against_impl"] = ck.cov["evaluations"]
     ck.cov["rule"] = ("TCP and UDP over IPv4 and IPv6, payload lengths 2..1203 odd and even, valid / payload bit flip / random field / field 0xFFFF / field 0x0000 / "
                       "payload word steering the pre-fold total to 0xFFFF, 0x10000, 0x1FFFF, ... with and without a then-correct checksum; every third IPv6 frame with 1..3 "
